@@ -728,6 +728,11 @@ class ConstructedPayloadDecoderBase(AbstractConstructedPayloadDecoder):
                     if isSetType:
                         idx = namedTypes.getPositionByType(component.effectiveTagSet)
 
+                        if idx in seenIndices:
+                            raise error.PyAsn1Error(
+                                'Duplicate SET component %r at %r' % (
+                                    namedTypes[idx].name, asn1Object))
+
                     elif namedTypes[idx].isOptional or namedTypes[idx].isDefaulted:
                         idx = namedTypes.getPositionNearType(component.effectiveTagSet, idx)
 
@@ -951,6 +956,11 @@ class ConstructedPayloadDecoderBase(AbstractConstructedPayloadDecoder):
                 if not isDeterministic and namedTypes:
                     if isSetType:
                         idx = namedTypes.getPositionByType(component.effectiveTagSet)
+
+                        if idx in seenIndices:
+                            raise error.PyAsn1Error(
+                                'Duplicate SET component %r at %r' % (
+                                    namedTypes[idx].name, asn1Object))
 
                     elif namedTypes[idx].isOptional or namedTypes[idx].isDefaulted:
                         idx = namedTypes.getPositionNearType(component.effectiveTagSet, idx)
